@@ -39,6 +39,11 @@ pub struct PairCfg {
     pub sub_ops: bool,
     /// manual responses: the application may send the PUBREL it owes later (also after a loss and resume)
     pub defer_pubrel: bool,
+    /// workload topic t is TOPICS[t + topic_off] (1: 'bb' and the 10-byte 'topic/long')
+    pub topic_off: u8,
+    /// extra payload bytes of a publish that uses an alias with an empty topic: with a long topic the
+    /// packet on the wire is then smaller than the registering one, but its store copy (full topic) is not
+    pub use_extra: u8,
 }
 
 #[derive(Clone, Copy, Debug, PartialEq, Eq, Hash)]
@@ -250,7 +255,7 @@ impl<P: Pid> Pair<P> {
                             out.label("c01.publish-notified");
                             let tag = payload.first().copied().unwrap_or(255) as usize;
                             match self.msgs.get_mut(tag) {
-                                Some(m) if m.from_client != client && TOPICS[m.t as usize] == &topic[..] && m.q == *qos && payload.len() == 2 && payload[1] == b'!' => {
+                                Some(m) if m.from_client != client && TOPICS[(m.t + self.cfg.topic_off) as usize] == &topic[..] && m.q == *qos && payload.len() >= 2 && payload[1..].iter().all(|b| *b == b'!') => {
                                     m.notified = (m.notified + 1).min(3);
                                 }
                                 _ => {
@@ -379,17 +384,21 @@ impl<P: Pid> Pair<P> {
                 let id = if *q > 0 { conn.acquire().ok() } else { None };
                 let mut props = vec![];
                 let topic = match al {
-                    Al::No => TOPICS[*t as usize].to_vec(),
+                    Al::No => TOPICS[(*t + self.cfg.topic_off) as usize].to_vec(),
                     Al::Reg(a) => {
                         props.push(Prop { id: 0x23, val: PVal::U16(*a) });
-                        TOPICS[*t as usize].to_vec()
+                        TOPICS[(*t + self.cfg.topic_off) as usize].to_vec()
                     }
                     Al::Use(a) => {
                         props.push(Prop { id: 0x23, val: PVal::U16(*a) });
                         vec![]
                     }
                 };
-                let ap = AP::Publish { ver, dup: false, qos: *q, retain: false, topic, pid: id, props, payload: vec![tag, b'!'] };
+                let mut payload = vec![tag, b'!'];
+                if matches!(al, Al::Use(_)) {
+                    payload.extend(std::iter::repeat(b'!').take(self.cfg.use_extra as usize));
+                }
+                let ap = AP::Publish { ver, dup: false, qos: *q, retain: false, topic, pid: id, props, payload };
                 let evs = conn.send(bridge::build::<P>(&ap).ok().expect("publish"));
                 let errs: Vec<MqttError> = evs.iter().filter_map(|e| if let Ev::Error(x) = e { Some(*x) } else { None }).collect();
                 let accepted = errs.is_empty();
@@ -665,6 +674,8 @@ pub fn configs(thorough: bool) -> Vec<PairCfg> {
         timer_fires: 0,
         sub_ops: false,
         defer_pubrel: false,
+        topic_off: 0,
+        use_extra: 0,
     };
     for ver in [Ver::V4, Ver::V5] {
         v.push(base(ver, "auto/auto"));
@@ -692,6 +703,10 @@ pub fn configs(thorough: bool) -> Vec<PairCfg> {
     }
     // Maximum Packet Size = exactly the largest workload packet (PUBLISH QoS>0, topic 'bb', 2-byte payload: 1+1+4+2+1+2)
     v.push(PairCfg { mps: Some(11), ..base(Ver::V5, "mps=11 (largest workload packet)") });
+    // manual aliases on a long topic with a size limit that admits the registering PUBLISH (20 bytes) and the
+    // alias-only PUBLISH with its longer payload (15 bytes), but not the latter's store copy with the full
+    // topic (22 bytes): what the library accepts it must also be able to retransmit after a loss
+    v.push(PairCfg { mps: Some(20), tam: 1, alias_mode: 0, losses: 1, topic_off: 1, use_extra: 3, ..base(Ver::V5, "mps=20 tam=1 manual aliases, long topic, longer alias-only payload") });
     if thorough {
         // all limits at once: the size limit must also admit the CONNACK that announces them (16 bytes)
         v.push(PairCfg { mps: Some(16), tam: 2, alias_mode: 1, rm_c: Some(1), rm_s: Some(1), losses: 1, ..base(Ver::V5, "mps=16 tam=2 auto-map rm=1/1") });
